@@ -30,8 +30,8 @@ type c10Case struct {
 	CTx, CRx uint64 `json:"ctx,omitempty"`
 	STx, SRx uint64 `json:"stx,omitempty"`
 	Ignore   bool   `json:"ignore,omitempty"`
-	CC       string `json:"cc"` // "reno" or "bbr:<profile>"
-	Hdr      string `json:"hdr,omitempty"`    // header string for the *-header kinds ("<missing>" = absent)
+	CC       string `json:"cc"`            // "reno" or "bbr:<profile>"
+	Hdr      string `json:"hdr,omitempty"` // header string for the *-header kinds ("<missing>" = absent)
 }
 
 var (
@@ -230,6 +230,14 @@ func c10Run(c *c10Case) string {
 					e.Fail("a repeated auth request (Hysteria-CC-RX %q) changed the enforced congestion control from %+v to %+v while the application was told tx=%d", h2, got, after, reported)
 					break
 				}
+			}
+			// the client's UDP source address changes mid-connection (NAT rebinding; every hop of a
+			// port-hopping client): the rate the application was told must still be the one enforced
+			// (added after the seeded change C10-4: with quic-go's path manager enabled the connection
+			// follows the client to its new address and starts over with a Reno sender)
+			rc.Conn.Peer().PeerAddressChanged(&net.UDPAddr{IP: net.IPv4(127, 0, 0, 1), Port: 59999})
+			if after := c10Inspect(rc.Conn.Peer()); after.Kind != got.Kind || after.Rate != got.Rate {
+				e.Fail("after the client's source address changed the server enforces %+v instead of %+v (the application was told tx=%d): the QUIC layer replaced the congestion controller on path migration", after, got, reported)
 			}
 			rc.close()
 		case "client-header":
